@@ -138,23 +138,35 @@ SubTPClause(m, ev) ==
 
 \* C04: identities; every side is a recorded result
 \*   neg: (a-b) == -(b-a) [eqneg];  back: b + (a-b) == a [eqback, with the recorded sum];  rt: (p+d)-p == d
+\* The library's == on the two sides is demanded when no fractional unit is involved anywhere (then its float
+\* arithmetic is exact); with fractions the two sides must agree on the timeline to within 2 us (C01's tolerance).
 IdentClause(m, ev) ==
+  LET fr == ev.a.frac \/ ev.b.frac \/ ev.dab.frac \/ ev.dba.frac \/ ev.back.frac IN
   IF ~ev.ok THEN "raised-" \o ev.cls
-  ELSE IF ~ev.eqneg THEN "(a-b)==-(b-a)"
+  ELSE IF ~fr /\ ~ev.eqneg THEN "(a-b)==-(b-a)"
   ELSE IF ~DurNear(ev.dab, [y |-> 0, mo |-> 0, len |-> Neg3(ev.dba.len)]) THEN "(a-b)=-(b-a)-lengths"
-  ELSE IF ~ev.eqback THEN "b+(a-b)==a"
-  ELSE IF ~Near3(Inst(m, ev.back), Inst(m, ev.a), IF ev.a.frac \/ ev.b.frac THEN 2 ELSE 0) THEN "b+(a-b)=a-instants"
+  ELSE IF ~fr /\ ~ev.eqback THEN "b+(a-b)==a"
+  ELSE IF ~Near3(Inst(m, ev.back), Inst(m, ev.a), IF fr THEN 2 ELSE 0) THEN "b+(a-b)=a-instants"
   ELSE "ok"
 RoundTripClause(m, ev) ==
+  LET fr == ev.p.frac \/ ev.d.frac \/ ev.r.frac IN
   IF ~ev.ok THEN "raised-" \o ev.cls
-  ELSE IF ~ev.eq THEN "(p+d)-p==d"
-  ELSE IF ~DurNear(ev.r, ev.d) THEN "(p+d)-p=d-lengths"
+  ELSE IF ~fr /\ ~ev.eq THEN "(p+d)-p==d"
+  ELSE IF ~(IF fr THEN DurNear(ev.r, ev.d) ELSE DurSame(ev.r, ev.d)) THEN "(p+d)-p=d-lengths"
   ELSE "ok"
 
 \* C06: re-expression in another offset, with ==, hash, difference of original and result
+\* (a dump whose re-zoned year cannot be written with the format's year digits may be refused: the library
+\*  cannot express the expected output, so the case is outside the quantifier)
+Pow10(k) == CASE k = 0 -> 1 [] k = 1 -> 10 [] k = 2 -> 100 [] k = 3 -> 1000 [] OTHER -> 10000
+YearDumpable(y, xd) == IF xd = 0 THEN y \in 0..9999 ELSE Abs(y) <= 10000 * Pow10(xd) - 1
+RezonedYear(m, p, zh, zm) ==
+  DateOf(m, p.rep, Plus3(Local(m, p), <<0, ZoneSec(zh, zm) - ZoneSec(p.zh, p.zm), 0>>)[1])[1]
 ZoneClause(m, ev) ==
-  IF ~ev.ok THEN "raised-" \o ev.cls
-  ELSE IF ~ValidTP(m, ev.p) THEN "operand-invalid"
+  IF ~ValidTP(m, ev.p) THEN "operand-invalid"
+  ELSE IF ~ev.ok THEN
+       (IF ev.via = "dump" /\ ev.cls = "TimePointDumperBoundsError" /\ ~YearDumpable(RezonedYear(m, ev.p, ev.zh, ev.zm), ev.p.xd)
+        THEN "ok" ELSE "raised-" \o ev.cls)
   ELSE LET c == ToZoneClause(m, ev.p, ev.zh, ev.zm, ev.q) IN
        IF c # "ok" THEN c
        ELSE IF ~ev.eq THEN "not-equal-to-original"
